@@ -18,7 +18,7 @@ class C17(Check):
             "configuration and seed must reproduce the reference generation by generation (fingerprints of X, F, G and of the optimum), also when the run itself uses the "
             "default termination; (3) minimize must end in the reference's last population; (4) ask-and-tell with the offspring evaluated outside the algorithm one by one "
             "other problems driven through ask-and-tell / minimize(copy_algorithm=False) on algorithm objects that share the default operator instances; in shuffled order, and in batches, must reproduce the reference; (5) __dict__ of the shared default operator instances is compared before/after; "
-            "(6) the run repeated while numpy.empty / empty_like return arrays pre-filled with small in-range integers / 0.5 must reproduce the reference (nothing may read uninitialised memory); in addition one run per case is compared with the Coq model step by step (as in C06-C08); non-trivial = at least 3 generations compared; distinct by hash; one case in four or five is a multi-feature scenario taken in turn and run in a process of its own (the algorithm's default survival object after a run on an unconstrained problem, now on a problem with 20-80% feasible points; constraint-ranking or default survival with a small feasible region reached one member at a time; single-objective DE with a minimal population on a coarse plateau, 8 generations; constraint-ranking survival with two constraints and at most 30% feasible points; the dither range as one shared float array)")
+            "(6) the run repeated while numpy.empty / empty_like return arrays pre-filled with small in-range integers / 0.5 must reproduce the reference (nothing may read uninitialised memory); in addition one run per case is compared with the Coq model step by step (as in C06-C08); non-trivial = at least 3 generations compared; distinct by hash; one case in four or five is a multi-feature scenario taken in turn and run in a process of its own (the algorithm's default survival object after a run on an unconstrained problem, now on a problem with 20-80% feasible points; constraint-ranking or default survival with a small feasible region reached one member at a time; single-objective DE with a minimal population on a coarse plateau, 8 generations; constraint-ranking survival with two constraints and at most 30% feasible points; the dither range as one shared float array; an objective that is +inf on part of the box (cd / ce); advance_after_initial_infill=False); 15% of the two-objective cd / ce cases have such an infinite region and 12% of the DE cases that flag; one case in six warm-starts every run of the configuration from one evaluated Population object that the caller keeps")
     ASSUMPTIONS = ["the model is a function of the recorded draws and oracle answers (no hidden state by construction); that the Python objects have no further state "
                    "(module globals, shared default-argument instances, numpy's global generator) is an observation of these paired runs: partial",
                    "numpy.random.seed(seed) determines the draw stream (numpy, trusted)"]
@@ -37,6 +37,9 @@ class C17(Check):
                 nd = cfg["y"] + (1 if "-to-" in cfg["sel"] else 0)
                 cfg["pop_size"] = 1 + 2 * nd + 1
                 cfg["workloads"] = ["aborted", self.rng.choice(["other-asktell", "none", "default-term-asktell"])]
+            if i % 6 == 1 and cfg["alg"] != "NSDER":
+                # warm start from an evaluated Population object that the caller keeps and re-uses for every run of this configuration
+                cfg["warm_pop"] = True
             cfg["wl_seed"] = self.rng.randrange(10 ** 6)
             yield cfg
 
